@@ -77,6 +77,7 @@ Definition F_ENABLE : N := 12.
 Definition F_DISABLE : N := 13.
 Definition F_SWEEP : N := 14.
 Definition F_TRANSFER_FROM : N := 15.
+Definition F_TRANSFER : N := 16.
 (* re-entering target functions (a malicious target calling back into the fee token / the forwarder) *)
 Definition F_PULL : N := 5.         (* target: pull(token, spender, from, to, amount, swallow)            *)
 Definition F_APPROVE_FOR : N := 6.  (* target: approve_for(token, owner, spender, amount, exp, swallow)   *)
@@ -463,10 +464,41 @@ Definition target_body (c : cfg) (nw : Z) (tks : list (addr * tokst)) (F target 
   | _ => Fail
   end.
 
-(* the harness target contract, called by [F] *)
+(* the target is one of the fee tokens: the forwarder - the direct invoker of the token call - is
+   made to call a token function.  With spender / from = the forwarder itself the authorisation is
+   automatic: forward(.., target = token, fn = transfer_from, args = (forwarder, user, x, a)) spends
+   the allowance the user has given the forwarder (e.g. the residual max - fee), and
+   (.., fn = transfer, args = (forwarder, x, a)) spends the forwarder's own balance - both are "the
+   exact target call" the user signed.  Other token functions are not modelled (the harness does
+   not forward them). *)
+Definition token_target (c : cfg) (nw : Z) (tks : list (addr * tokst)) (F target : addr) (fn : N)
+  (args : list atom) (ts1 : list tracker) : res (list (addr * tokst)) :=
+  match args with
+  | [AA spender; AA from; AA to; AI amt] =>
+      if N.eqb fn F_TRANSFER_FROM then
+        do _ <- require_auth true (Some F) spender
+                  (mkf target F_TRANSFER_FROM [VA spender; VA from; VA to; VI amt]) ts1;
+        do t1 <- spend_allowance (c_host c) nw (get_tokm tks target) from spender amt;
+        do t2 <- update_transfer t1 from to amt;
+        Ok (alist_set target t2 tks)
+      else Fail
+  | [AA from; AA to; AI amt] =>
+      if N.eqb fn F_TRANSFER then
+        do _ <- require_auth true (Some F) from (mkf target F_TRANSFER [VA from; VA to; VI amt]) ts1;
+        do t2 <- update_transfer (get_tokm tks target) from to amt;
+        Ok (alist_set target t2 tks)
+      else Fail
+  | _ => Fail
+  end.
+
+(* the target call: a fee token (returns void = 0, no log), or the harness target contract *)
 Definition target_call (c : cfg) (nw : Z) (tks : list (addr * tokst)) (l : list (addr * list logent))
   (F target : addr) (fn : N) (args : list atom) (ts : list tracker)
   : res (list (addr * tokst) * list (addr * list logent) * Z) :=
+  if memb target (c_tokens c) then
+    do tks' <- token_target c nw tks F target fn args (push_frame ts);
+    Ok (tks', l, 0)
+  else
   do _ <- guard (memb target (c_targets c));
   do _ <- guard (negb (N.eqb target F));              (* contract re-entry is not allowed *)
   do '(ent, tks') <- target_body c nw tks F target fn args (push_frame ts);
